@@ -337,6 +337,141 @@ def run_geometry(inst):
     return res
 
 
+def _digitize_stub(x, bins, right=False):
+    """np.digitize's documented contract (bins increasing, right=False): i such that bins[i-1] <= x < bins[i],
+    evaluated with concolic comparisons so that bins may be symbolic."""
+    xs = np.atleast_1d(np.asarray(x, dtype=object))
+    out = []
+    for xv in xs.reshape(-1):
+        i = 0
+        while i < len(bins) and (bins[i] <= xv):
+            i += 1
+        out.append(i)
+    return np.asarray(out, dtype=int).reshape(xs.shape)
+
+
+def run_geometry_symlen(inst):
+    """RAD with symbolic coordinates AND radii (thorough): np.digitize is replaced by a stub of its contract."""
+    import warnings
+    warnings.filterwarnings("ignore")
+    from jaxley.utils import cell_utils as cu
+    smt.reset_stats(); sym.reset()
+    timeout = 20 if harness.tier() == "quick" else 120
+    res = {"violations": [], "inconclusive": [], "counters": {}, "functions": ["jaxley/utils/cell_utils.py:_radius_generating_fn", "jaxley/utils/cell_utils.py:_radius", "jaxley/utils/cell_utils.py:build_radiuses_from_xyzr", "jaxley/utils/cell_utils.py:_compute_pathlengths"]}
+    rows = GEOMS[inst["geom"]]
+    n = len(rows)
+    def viol(clause, what):
+        res["violations"].append({"signature": {"clause": clause, "geom": inst["geom"]}, "what": f"{inst['geom']}: {what}", "replay": {"inst": inst, "clause": clause}})
+    content = np.asarray([[r[0], r[1], r[2], r[3], r[4], 1.0, r[5]] for r in rows], dtype=float)
+    types = content[:, 1]
+    sps = bool(types[0] == 1 and types[1] != 1)
+    branches, btypes = cu._split_into_branches_and_sort(content.copy(), max_branch_len=None, is_single_point_soma=sps, sort=True)
+    parents = cu._build_parents(branches)
+    X = {(i, c): var(f"{c}{i+1}") for i in range(n) for c in "xyzr"}
+    coords = np.empty((n, 5), dtype=object)
+    for i in range(n):
+        coords[i, 0] = float(types[i])
+        for k, c in enumerate("xyzr"): coords[i, 1 + k] = X[(i, c)]
+    base_env = {}
+    for i in range(n):
+        for k, c in enumerate("xyz"): base_env[f"{c}{i+1}"] = float(rows[i][2 + k])
+        base_env[f"r{i+1}"] = 1.0 + 0.37 * i
+    R = [X[(i, "r")] for i in range(n)]
+    saved = np.digitize
+    Concolic.install()
+    np.digitize = _digitize_stub
+    try:
+        for ncomp in inst["ncomps"]:
+            rng = np.random.default_rng(harness.seed() + ncomp)
+            for trial in range(inst.get("paths", 4)):
+                env = dict(base_env)
+                if trial:
+                    for k_ in env:
+                        if k_[0] in "xyz": env[k_] += float(rng.uniform(-3, 3))
+                        else: env[k_] = float(rng.uniform(0.2, 4.0))
+                Concolic.env, Concolic.path = env, []
+                # segment lengths as positive symbols (that they are the traced distances is clause LEN); concrete
+                # witness values from the geometry, perturbed per trial
+                conc = cu._compute_pathlengths([list(b) for b in branches], content[:, 1:6].copy(), is_single_point_soma=sps)
+                lens = []
+                for bi, l_ in enumerate(conc):
+                    arr = np.empty(len(l_), dtype=object)
+                    for k_, x_ in enumerate(l_):
+                        nm = f"len{bi}_{k_}"; arr[k_] = var(nm)
+                        env[nm] = max(float(x_), 0.05) * (1.0 if not trial else float(rng.uniform(0.3, 3.0)))
+                    lens.append(arr)
+                try:
+                    fns = cu._radius_generating_fns([list(b) for b in branches], np.asarray(R, dtype=object).copy(), [l_.copy() for l_ in lens], parents, btypes)
+                    out = np.asarray(cu.build_radiuses_from_xyzr(fns, list(range(len(branches))), None, ncomp), dtype=object).reshape(-1)
+                except AssertionError:
+                    continue
+                pc = list(Concolic.path)
+                # oracle under the same witness: which traced segment contains each compartment centre
+                goals = []
+                kk = 0
+                for bi, b in enumerate(branches):
+                    pts = [int(p) - 1 for p in b]
+                    rr = [R[p] for p in pts]
+                    if parents[bi] > -1 and btypes[bi] != btypes[parents[bi]] and len(rr) > 1: rr = [rr[1]] + rr[1:]
+                    L = [lift(x_) for x_ in lens[bi].reshape(-1)]
+                    Lc = [sym.smax(x_, const("1/100000000")) for x_ in L]
+                    if len(rr) == 1: rr = rr * 2
+                    tot = Lc[0]
+                    for x_ in Lc[1:]: tot = tot + x_
+                    cum = [lift(0)]
+                    for x_ in Lc: cum.append(cum[-1] + x_)
+                    for k in range(ncomp):
+                        s_ = const(sym.Fraction(2 * k + 1, 2 * ncomp)) * tot
+                        sv = float(sym.evalf(s_, env)); cv = [float(sym.evalf(c_, env)) for c_ in cum]
+                        j = max(0, min(len(Lc) - 1, int(np.searchsorted(cv, sv, side="right")) - 1))
+                        val = rr[j] + (rr[j + 1] - rr[j]) * (s_ - cum[j]) / Lc[j]
+                        tol = const("1/100000")
+                        inseg = sym.band(sym.le(cum[j] - tol, s_), sym.le(s_, cum[j + 1] + tol))
+                        close = sym.band(sym.le(out[kk] - val, tol * (lift(1) + abs(val))), sym.le(val - out[kk], tol * (lift(1) + abs(val))))
+                        goals.append(sym.band(inseg, close)); kk += 1
+                q = smt.Query(f"C16/RADsym/ncomp={ncomp}", flatten_div=True)
+                for i in range(n):
+                    q.bounds(f"r{i+1}", 0.05, 20.0)
+                for l_ in lens:
+                    for x_ in l_: q.bounds(x_.args[0], 0.001, 500.0)
+                for c in pc: q.add(c)
+                q.add_any([sym.bnot(g_) for g_ in goals])
+                r = q.check(timeout=timeout)
+                res["counters"][f"RADsym_{r.status}"] = res["counters"].get(f"RADsym_{r.status}", 0) + 1
+                if r.has_witness:
+                    e2 = {k_: float(r.model.get(k_, env[k_])) for k_ in env}
+                    cc = content.copy()
+                    for i in range(n): cc[i, 5] = e2[f"r{i+1}"]
+                    np.digitize = saved; Concolic.uninstall()
+                    try:
+                        el = [np.asarray([e2[x_.args[0]] for x_ in l_], dtype=float) for l_ in lens]
+                        fr = cu._radius_generating_fns([list(b) for b in branches], cc[:, 5].copy(), [np.array(e_, dtype=float) for e_ in el], parents, btypes)
+                        real = list(map(float, cu.build_radiuses_from_xyzr(fr, list(range(len(branches))), None, ncomp)))
+                        # independent float oracle
+                        want = []
+                        for bi, b in enumerate(branches):
+                            pts = [int(p) - 1 for p in b]; rr = [cc[p, 5] for p in pts]
+                            if parents[bi] > -1 and btypes[bi] != btypes[parents[bi]] and len(rr) > 1: rr = [rr[1]] + rr[1:]
+                            Lf = [max(float(x_), 1e-8) for x_ in el[bi]]
+                            if len(rr) == 1: rr = rr * 2
+                            want += list(np.interp((np.arange(ncomp) + 0.5) / ncomp * sum(Lf), np.concatenate([[0.0], np.cumsum(Lf)]), rr))
+                        if max(abs(a_ - b_) for a_, b_ in zip(real, want)) > 1e-4 * (1 + max(abs(x_) for x_ in want)):
+                            viol("RAD", f"ncomp={ncomp}: compartment radii {real} != interpolated traced radii {want} (symbolic-length path)")
+                        else:
+                            res["inconclusive"].append({"instance": inst, "query": "RADsym", "reason": "model not reproduced"})
+                    finally:
+                        Concolic.install(); np.digitize = _digitize_stub
+                elif r.status != "unsat":
+                    res["inconclusive"].append({"instance": inst, "query": "RADsym", "reason": r.status})
+    finally:
+        np.digitize = saved
+        Concolic.uninstall()
+    res["counters"]["instances_encoded"] = 1
+    res["stats"] = dict(smt.STATS); res["query_log"] = list(smt.QUERY_LOG)
+    res["sample"] = {"instance": inst}
+    return res
+
+
 # ------------------------------------------------------------------ FILE: concrete side-check of read_swc
 def run_file(inst):
     import warnings
@@ -391,6 +526,7 @@ def run_instance(inst):
     k = inst["kind"]
     if k == "topo": return run_crosshair(inst)
     if k == "geom": return run_geometry(inst)
+    if k == "geom_symlen": return run_geometry_symlen(inst)
     return run_file(inst)
 
 
@@ -404,6 +540,8 @@ def families():
     for g in GEOMS:
         insts.append({"kind": "geom", "geom": g, "ncomps": [1, 2, 3] if quick else [1, 2, 3, 4, 7]})
         insts.append({"kind": "file", "geom": g})
+    for g in (("type_change",) if quick else ("type_change", "mps_y", "sps_two", "dense_line")):
+        insts.append({"kind": "geom_symlen", "geom": g, "ncomps": [2] if quick else [1, 2, 3, 5], "paths": 2 if quick else 6})
     return insts
 
 
